@@ -457,8 +457,8 @@ func cacheSeq(c *lib.Ctx, prefill int, seq []int) {
 	get := func(k int) bool {
 		before := calls
 		v := ch.Get(k)
-		if v != last[k] {
-			fail("Get(%d) = %d, the getter last returned %d for it", k, v, last[k])
+		if lv, called := last[k]; !called || v != lv {
+			fail("Get(%d) = %d, the getter last returned %d for it (called for it: %v)", k, v, lv, called)
 			return false
 		}
 		before2 := calls
